@@ -29,6 +29,15 @@ CLAIMED = {
         note='Theorems are about coq/SliceDisp.v. That only one event loop increments at a time is a validated precondition of the model, not a theorem about goroutine creation. '
              'Trusted: Coq kernel, extraction, rewriter + shim runtime, projection, harness.',
         technique='Coq inductive invariant over a one-job-plus-counters transition system + lock-step trace validation', ref='5 C02'),
+    'C03': dict(
+        text='Machine-checked: whenever the event loop is parked on its signal channel while its guard (running, below the limit, something pending) is true, a signal is buffered or a '
+             'thread is about to send one; hence at rest nothing dispatchable remains (min(pending, limit) jobs are in flight); a buffered signal is never lost; notifying never blocks. '
+             'The model requires every step that makes work dispatchable to be followed by a notify — replayed against the worker-level projection of every explored execution. The '
+             'controlled scheduler detects quiescence exactly: unfinished scenarios, library goroutines parked outside their idle points, accepted jobs never run, missing saturation '
+             'with gated worker functions and runaway loops are violations; a native burst across the FIFO\'s real segment sizes must drain.',
+        note='"Eventually" is rendered as "at rest"; that rest is reached is observed per execution (no ranking-function theorem). Theorems are about coq/SliceWake.v; the pool-node hand-off is monitored, not modelled. '
+             'Trusted: Coq kernel, extraction, rewriter + shim runtime, projection, harness.',
+        technique='Coq inductive invariant over the wake-up protocol + lock-step trace validation + exact quiescence detection', ref='5 C03'),
     'C04': dict(
         text='Machine-checked refinement theorems (all inputs, all lengths, all capacity settings): the segmented FIFO refines a '
              'list (enqueue appends, dequeue returns the oldest); the (Priority, Index) binary heap built on container/heap '
@@ -52,6 +61,13 @@ CLAIMED = {
              'whole log are replayed on the extracted model; early and never-returning barriers are monitored on every explored history (exact quiescence detection).',
         note='Theorems are about coq/SliceDisp.v. No-missed-wake-up is decided by the quiescence monitor and rests on C03. Trusted: Coq kernel, extraction, rewriter + shim runtime, projection, harness.',
         technique='Coq inductive invariant over a one-job-plus-counters transition system + lock-step trace validation', ref='5 C06'),
+    'C07': dict(
+        text='Machine-checked: every Result() / Err() call on a handle — received from the per-job response channel or read back after its close — yields the value that job\'s own worker '
+             'function produced (zero value if none), identically for all callers, never before the outcome is buffered or the response closed; the response is closed once; the wrappers map a '
+             'panic to that job\'s error, counted as failed and offered on the error channel. Per-job response projections are replayed on the extracted model; all returned values, batch stream '
+             'elements and Failed / Successful counts are compared with a pure function of the job data on every explored history (random value / error / panic outcomes).',
+        note='The wrappers are modelled as a pure function (checked by monitors, not lock-step). Trusted: Coq kernel, extraction, rewriter + shim runtime, projection, harness.',
+        technique='Coq invariant over the response channel protocol + lock-step trace validation + outcome monitors', ref='5 C07'),
     'C08': dict(
         text='Machine-checked, for every batch size >= 0 and every interleaving of finishing items: the stream is closed at most once, '
              'the closer always finds it open, an unfinished item always finds it open (no send on closed), the wait group never goes '
@@ -90,6 +106,13 @@ CLAIMED = {
              'and malformed entries.',
         note=PURE_NOTE + ' Payload fidelity itself is encoding/json\'s (assumed, checked differentially). Isolation of bad entries at system level: family persist.',
         technique='Coq round-trip proof of the envelope codec + differential test against extracted model', ref='5 C12'),
+    'C13': dict(
+        text='Machine-checked: an item delivered to a consumer is executed at most once and acknowledged at most once, only after processing (per-item protocol); a consumer parked with '
+             'items pending below its limit has a notification buffered or on its way, so at rest the shared queue is drained (wake-up protocol, with start()\'s unconditional notify covering '
+             'items present before the bind). Lock-step replay of per-item and (single-consumer) wake-up projections; with 1..3 consumers on one recording adapter the monitors check '
+             'exactly-one execution, drain at rest and Submitted = notifications delivered.',
+        note='The shared adapter is a specification object. Multi-consumer drain is monitored, not modelled. Trusted: Coq kernel, extraction, rewriter + shim runtime, projection, harness.',
+        technique='Coq invariants (per-item protocol, wake-up protocol) + lock-step trace validation + multi-consumer monitors', ref='5 C13'),
     'C14': dict(
         text='Machine-checked: the status logic of every lifecycle call, as coded, returns the documented error and leaves the documented status '
              '(Initiated; Running <-> Paused; Stopped; Restart back to Running; Bind starts a fresh worker and otherwise changes nothing; a cancelled '
